@@ -29,6 +29,7 @@ import (
 	"math/big"
 	"net"
 	"net/http"
+	"strings"
 	"sync"
 	"time"
 
@@ -237,10 +238,16 @@ func (c *Config) h2AllowedHost(host string) bool {
 }
 
 func (c *Config) cert(hostname string) (*tls.Certificate, error) {
-	// Remove the port if it exists.
+	// Remove the port if it exists, and the brackets of an IPv6 literal that has
+	// none.
 	host, _, err := net.SplitHostPort(hostname)
 	if err == nil {
 		hostname = host
+	} else if strings.HasPrefix(hostname, "[") && strings.HasSuffix(hostname, "]") {
+		hostname = hostname[1 : len(hostname)-1]
+	}
+	if hostname == "" {
+		return nil, errors.New("mitm: no hostname provided, failed to build certificate")
 	}
 
 	c.certmu.RLock()
